@@ -108,7 +108,7 @@ static void computeRowsCase(Rng &rng, CaseResult &r) {
   o.obstructionProb = 0.5;
   if (rng.chance(0.2)) o.scale = (int)rng.pick(std::vector<int>{100, 10000});
   Circuit c = genCircuit(rng, o);
-  if (rng.chance(0.3)) {
+  if (rng.chance(0.4)) {
     // arbitrary pairwise disjoint rows: several x-segments per band that start at the same y but have independent
     // heights and orientations, listed in random order (computeRows makes no assumption on the rows)
     Rectangle a0 = c.computePlacementArea();
@@ -124,9 +124,11 @@ static void computeRowsCase(Rng &rng, CaseResult &r) {
         int h = unit * (int)rng.range(1, 4);
         if (rng.chance(0.3)) h = std::max(1, h - (int)rng.range(0, unit - 1));
         x += (int)rng.range(0, 2) * o.scale;
-        rows.emplace_back(x, x + w, y, y + h, ALL8[rng.range(0, 7)]);
+        // segments of a band need not start at the same y either: staggered rows whose y ranges overlap partially
+        int yOff = rng.chance(0.4) ? (int)rng.range(0, 3 * unit) : 0;
+        rows.emplace_back(x, x + w, y + yOff, y + yOff + h, ALL8[rng.range(0, 7)]);
         x += w;
-        maxH = std::max(maxH, h);
+        maxH = std::max(maxH, yOff + h);
       }
       y += maxH + (int)rng.range(0, 1) * unit;
     }
